@@ -84,6 +84,7 @@ func init() {
 			"C09-R3 facts-before(every signer-state write) ⊇ R2 + signature; argument shapes; lock held",
 			"C09-R4 argument identity between verifySignature and DecodeNetworkMsg",
 			"C09-R5 result mapping of ValidatePubsubMessage",
+			"C09-R6 lock discipline: lock-table access inside one critical section; per-ID lock taken before the table lock is released; stateful validation under the per-ID lock",
 		},
 		Trusted: []string{"RSA verification (operator keys)", "go/types + go/ssa"},
 		Assume:  []string{"observation (not armed): partial-signature messages have no slot-window check in this tree"},
